@@ -77,7 +77,7 @@ func runC04(w *World) {
 		w.Violate("c04-start", "server did not start: %v", si.StartErr)
 		return
 	}
-	before := SnapshotTree(filepath.Join(w.Dir, "sandbox"))
+	before := SnapshotTree(w.Sandbox)
 	no := cfg["observers"]
 	var startQ simrt.WaitQ
 	obsReady, peersDone := 0, 0
@@ -252,7 +252,7 @@ func runC04(w *World) {
 	}
 	w.Sim.Run()
 
-	after := SnapshotTree(filepath.Join(w.Dir, "sandbox"))
+	after := SnapshotTree(w.Sandbox)
 	anyLoggedIn := false
 	for _, pr := range results {
 		c := pr.c
